@@ -5,5 +5,5 @@ From Coq.Strings Require Import Byte.
 From Coq Require Import Extraction ExtrOcamlBasic.
 From GI Require Import Lib.Bytes Txtar.Txtar TsRun.TsFs TsRun.TsState TsRun.TsCmds TsRun.TsRun TsRun.TsUpdate.
 Extraction Language OCaml.
-Extraction "extracted/tsrun/model.ml" Byte.of_N Byte.to_N run_file_full cli_exit batch_verdicts
+Extraction "extracted/tsrun/model.ml" Byte.of_N Byte.to_N run_file_full run_file cli_exit batch_verdicts
   tokenise expand clean join2 base dir parse format needs_quote quote apply_updates.
